@@ -393,6 +393,46 @@ func genImports(repo string) (string, error) {
 	}
 	sort.Slice(funcInfra, func(i, j int) bool { return funcInfra[i].name < funcInfra[j].name })
 
+	// ---- literals compared / concatenated in the two decision functions the model mirrors by hand:
+	// enum.go isExplicitZero (which first option is the zero value) and service.go checkListMethod
+	// (what makes a list method, how many response arrays): every binary expression ==, !=, + whose
+	// right operand is a string or integer literal, in source order: (operator, literal)
+	type litRow struct {
+		name string
+		ops  []string
+		lits []string
+	}
+	var litRows []litRow
+	for _, want := range [][2]string{{"enum.go", "isExplicitZero"}, {"service.go", "checkListMethod"}} {
+		_, cf, err := gen.ParseFile(filepath.Join(dir, want[0]))
+		if err != nil {
+			return "", err
+		}
+		fd := findFunc(cf, want[1])
+		if fd == nil || fd.Body == nil {
+			return "", fmt.Errorf("%s: func %s not found", want[0], want[1])
+		}
+		row := litRow{name: want[0] + ":" + want[1]}
+		ast.Inspect(fd.Body, func(n ast.Node) bool {
+			be, ok := n.(*ast.BinaryExpr)
+			if !ok || (be.Op != token.EQL && be.Op != token.NEQ && be.Op != token.ADD) {
+				return true
+			}
+			if bl, ok := be.Y.(*ast.BasicLit); ok && (bl.Kind == token.STRING || bl.Kind == token.INT) {
+				v := bl.Value
+				if bl.Kind == token.STRING {
+					if u, ok := unq(bl); ok {
+						v = u
+					}
+				}
+				row.ops = append(row.ops, be.Op.String())
+				row.lits = append(row.lits, v)
+			}
+			return true
+		})
+		litRows = append(litRows, row)
+	}
+
 	var sb strings.Builder
 	sb.WriteString("From Coq Require Import String List NArith.\nImport ListNotations.\nLocal Open Scope N_scope.\nLocal Open Scope string_scope.\n")
 	sb.WriteString("(* internal/j5s/j5convert/imports.go: string constants (name, value as bytes) *)\n")
@@ -448,6 +488,16 @@ func genImports(repo string) (string, error) {
 	writeInfra("field_infra", "fields.go buildField arms, infrastructure imports (setJ5Ext counts as j5ExtImport)", fieldInfra)
 	writeInfra("property_infra", "fields.go buildProperty arms and its `if required` block", propInfra)
 	writeInfra("func_infra", "conversion.go / service.go, per function", funcInfra)
+	sb.WriteString("(* enum.go isExplicitZero / service.go checkListMethod: (function, operators, literals) of every ==, !=, + with a literal right operand, in source order *)\n")
+	sb.WriteString("Definition decision_literals : list (string * list string * list string) := [\n")
+	for i, r := range litRows {
+		sep := ";"
+		if i == len(litRows)-1 {
+			sep = ""
+		}
+		fmt.Fprintf(&sb, "  (%s, %s, %s)%s\n", gen.CoqString(r.name), coqStrList(r.ops), coqStrList(r.lits), sep)
+	}
+	sb.WriteString("].\n")
 	sb.WriteString("(* fields.go buildField: format constant -> proto type *)\n")
 	sb.WriteString("Definition format_arms : list (string * string) := [\n")
 	for i, a := range fmts {
